@@ -132,6 +132,27 @@ def minimise(s, still_fails, budget=60):
                 cmds, obs = c2, o2; changed = True
     return Scenario(cmds, obs, s.tags, s.note)
 
+def history_fails(pre, s, flavour, oracle):
+    """does scenario s fail when it runs after the scenarios `pre` in ONE driver process?"""
+    scs = list(pre) + [s]
+    m = vlib.run_model([x.cmds for x in scs])
+    exe, err = vlib.impl_driver(flavour)
+    res = [r for r in vlib.run_impl_chunk(exe, [x.cmds for x in scs]) if r[0] != "__LEAK__"]
+    if len(res) < len(scs): return False
+    k, _d = judge(s, m[-1], res[-1][0], res[-1][1], oracle)
+    return k == "violation"
+
+def find_history(scens, s, flavour, oracle):
+    """s failed inside a run but not alone: the shortest run of its predecessors in the same driver process
+    after which it fails again (state kept by the library or the C runtime between calls: errno, statics)"""
+    k = scens.index(s); n = vlib.nchunks(len(scens))
+    preds = [scens[j] for j in range(k % n, k, n)]
+    for w in (1, 2, 4, 8, 16, 32, len(preds)):
+        if w > len(preds): w = len(preds)
+        if w and history_fails(preds[-w:], s, flavour, oracle): return preds[-w:]
+        if w == len(preds): break
+    return None
+
 def load_corpus(pid):
     out = []
     for f in sorted(glob.glob(os.path.join(VERIF, "corpus", pid, "*.case"))):
@@ -147,6 +168,9 @@ def replay_text(pid, s, detail, extra=""):
     lines = ["# property %s" % pid, "# " + detail.replace("\n", " ")[:1500]]
     if extra: lines += ["# " + x for x in extra.split("\n")]
     lines.append("# replay: ./check %s --replay <this file>   (commands prefixed with ~ are fidelity-only)" % pid)
+    for h in (getattr(s, "history", None) or []):
+        # scenarios that ran before in the same process and are needed for the failure; `reset` separates scenarios
+        lines += ["~" + c for c in h.cmds] + ["reset"]
     for c, o in zip(s.cmds, s.obs):
         lines.append(c if o else "~" + c)
     return "\n".join(lines) + "\n"
@@ -234,7 +258,12 @@ def generic_check(pid, tier, seed, mod):
 
     if unknown:
         s, det = unknown[0]
-        try: s = minimise(s, fails)
+        try:
+            if fails(s): s = minimise(s, fails)
+            else:
+                h = find_history(scens, s, flavour, oracle)
+                if h is not None: s.history = h
+                else: notes.append("the failing scenario fails neither alone nor after its predecessors when re-run")
         except Exception as e: notes.append("minimisation failed: %r" % e)
         p = vlib.write_replay(pid, "violation-seed%d.case" % seed, replay_text(pid, s, det))
         out_lines.append("VIOLATION property=%s replay=%s" % (pid, p))
@@ -282,6 +311,18 @@ def replay(pid, path, mod):
         if not ln or ln.startswith("#"): continue
         if ln.startswith("~"): cmds.append(ln[1:]); obs.append(False)
         else: cmds.append(ln); obs.append(True)
+    if "reset" in cmds:
+        # a history: several scenarios that have to run in one process; the last one is the failing one
+        scs, cur_c, cur_o = [], [], []
+        for c, o in zip(cmds + ["reset"], obs + [False]):
+            if c == "reset": scs.append(Scenario(cur_c, cur_o)); cur_c, cur_o = [], []
+            else: cur_c.append(c); cur_o.append(o)
+        s = scs[-1]
+        bad = history_fails(scs[:-1], s, getattr(mod, "FLAVOUR", "asan"), getattr(mod, "oracle", None))
+        print("history of %d scenarios, last one %s" % (len(scs), "fails" if bad else "agrees"))
+        if bad:
+            print("VIOLATION property=%s replay=%s" % (pid, path)); return 1
+        print("replay: no violation"); return 0
     s = Scenario(cmds, obs)
     m, i, _ = run_all([s], flavour=getattr(mod, "FLAVOUR", "asan"))
     kind, det = judge(s, m[0], i[0][0], i[0][1], getattr(mod, "oracle", None))
